@@ -6,6 +6,12 @@ ALL = ["C%02d" % i for i in range(1, 21)]
 
 # id -> (technique, level text, level note, design ref)
 CHECKS = {
+    "C02": (
+        "proptest-generated typed expression trees (all operators, functions, literal spellings, boundary operands, minimal and redundant parenthesisation) + exhaustive operator x operand-pair matrix, against a reference evaluator written from the manual",
+        "Exploration with a reference model that yields value and type (or the BASIC error) for every tree; the implementation is observed through PRINT, two type probes and five typed stores per case. The operator x type-pair x boundary-value matrix (18432 cases) is complete; random trees sample compositions (precedence, associativity, promotion chains).",
+        "The reference evaluator (sem.rs) is the trusted base; its reading of the manual is listed in DESIGN.md Appendix A. Floats: IEEE-exact except transcendentals/float powers (2 ulp); float = within the undocumented epsilon is discarded.",
+        "6 C02",
+    ),
     "C15": (
         "bounded-exhaustive enumeration of edit/LIST/DELETE histories over small line-number universes + proptest random long histories, against a BTreeMap reference model compared after every step",
         "Exploration with a reference model. Small scope is complete: every history of up to 3 operations (4 in thorough) over {0,1,10,65528,65529} and {0,10,65529}, every range form including inverted ones and numbers above 65529; after each operation the whole listing, every ranged LIST and Listing::line are compared with the model. Random histories of up to 60 operations cover the full number range.",
